@@ -57,6 +57,25 @@ def enclosing(spans, pos):
     return best
 
 
+def block_headers(src, a, pos):
+    """Headers of the blocks of src[a:] that are open at `pos` (text between the previous `;`/`{`/`}` and each open `{`)."""
+    stack, last = [], a
+    i = a
+    while i < pos:
+        c = src[i]
+        if c == "{":
+            stack.append(src[last:i])
+            last = i + 1
+        elif c == "}":
+            if stack:
+                stack.pop()
+            last = i + 1
+        elif c == ";":
+            last = i + 1
+        i += 1
+    return stack
+
+
 LOAD = re.compile(r"\.\s*(?:paused|flags)\s*\.\s*load\s*\(|\.\s*must_wait\s*\(", re.S)
 
 
@@ -94,6 +113,35 @@ def main():
         push = re.search(r"\.\s*push\s*\(\s*ThreadContext", body[cl:])
         dropped = g is not None and re.search(r"drop\s*\(\s*%s\s*\)" % re.escape(g.group(1)), body[:cl + (push.start() if push else 0)]) is not None
         spawn_locked = g is not None and g.group(1) != "_" and push is not None and not dropped
+    # every park() of the handshake sits inside a loop that re-tests its condition (park may return at any time: a stale token
+    # left by an earlier resume_threads, a spurious wake-up)
+    parks = []
+    for m in re.finditer(r"\bthread::park\s*\(\s*\)", src):
+        f = enclosing(spans, m.start())
+        if not f:
+            continue
+        hs = block_headers(src, f[1], m.start())
+        loops = [re.sub(r"#\[[^\]]*\]", " ", h).strip() for h in hs[1:]]
+        loops = [h for h in loops if re.match(r"(?:'[a-z_]+\s*:\s*)?(?:while\b|loop\b|for\b)", h)]
+        # the NEAREST enclosing loop is a `while` that tests the request word
+        in_loop = bool(loops) and re.match(r"(?:'[a-z_]+\s*:\s*)?while\b", loops[-1]) is not None \
+            and re.search(r"paused|flags|must_wait", loops[-1]) is not None
+        parks.append((f[0], src.count("\n", 0, m.start()) + 1, in_loop))
+    # a full collection: resume_threads is its LAST step (after marking and after the root generation has been bumped)
+    CL = os.path.join(REPO, "crates/steel-core/src/values/closed.rs")
+    csrc = strip_comments(open(CL).read())
+    cspans = fn_spans(csrc)
+    stoppers = [sp for sp in cspans if "stop_threads" in csrc[sp[1]:sp[2]] and "enumerate_stacks" in csrc[sp[1]:sp[2]]]
+    mark_has_no_resume = bool(stoppers) and all("resume_threads" not in csrc[a:b] for _, a, b in stoppers)
+    resumers = [sp for sp in cspans if re.search(r"\.\s*resume_threads\s*\(", csrc[sp[1]:sp[2]])]
+    resume_after_mark = bool(resumers)
+    for n, a, b in resumers:
+        body = csrc[a:b]
+        r = re.search(r"\.\s*resume_threads\s*\(", body).start()
+        mk = [m.start() for m in re.finditer(r"self\s*\.\s*mark\s*\(|MARKER\s*\.\s*mark\s*\(|increment_generation\s*\(", body)]
+        if not mk or max(mk) > r:
+            resume_after_mark = False
+    gc_hooks = 'yield_point("gc.mark.begin"' in open(CL).read() and 'yield_point("gc.mark.end"' in open(CL).read()
     # the controller: one atomic word of request bits (every operation a fetch_or / fetch_and), exit loops that do not `break` on an interrupt
     cs = [sp for sp in spans if sp[0] in ("pause_for_safepoint", "interrupt", "resume")]
     raw = open(VM).read()
@@ -120,6 +168,12 @@ def main():
     g += ["  ⟨%s, %d, %s, %s, %s⟩%s" % (q(n), ln, bl(r), bl(f), bl(p), "," if i + 1 < len(rows) else "")
           for i, (n, ln, r, f, p) in enumerate(rows)]
     g += ["]", "", "def stopFenced : Bool := %s" % bl(stop_fenced), "def spawnLocked : Bool := %s" % bl(spawn_locked),
+          "/-- One `std::thread::park()` of vm.rs. -/", "structure ParkSite where", "  fn : String", "  line : Nat", "  inLoop : Bool", "deriving DecidableEq, Repr",
+          "def parkSites : List ParkSite := [" + ", ".join("⟨%s, %d, %s⟩" % (q(n), ln, bl(l)) for n, ln, l in parks) + "]",
+          "/-- values/closed.rs: the function that stops the world and walks the stacks does not resume. -/",
+          "def markHasNoResume : Bool := %s" % bl(mark_has_no_resume),
+          "/-- … and every `resume_threads()` of a collection stands after the marking call and the bump of the root generation. -/",
+          "def resumeAfterMark : Bool := %s" % bl(resume_after_mark),
           "/-- `ThreadStateController` is one atomic word of request bits and the exit loops of enter_safepoint do not `break` on an interrupt. -/",
           "def controllerOneWord : Bool := %s" % bl(controller_one_word), "",
           "/-- Functions excused while K15a is an OPEN finding (empty once it is `fixed:`). -/",
@@ -133,7 +187,8 @@ def main():
     repaired = bool(rows) and all(r and f and p for _, _, r, f, p in rows) and stop_fenced
     os.makedirs(os.path.join(VERIF, ".build/C15"), exist_ok=True)
     json.dump({"exit_sites": [list(r) for r in rows], "stop_fenced": stop_fenced, "exits_repaired": repaired,
-               "spawn_locked": spawn_locked, "controller_one_word": controller_one_word, "open_K15a": open_a, "open_K15b": open_b},
+               "spawn_locked": spawn_locked, "controller_one_word": controller_one_word, "park_sites": [list(x) for x in parks],
+               "mark_has_no_resume": mark_has_no_resume, "resume_after_mark": resume_after_mark, "gc_mark_hooks": gc_hooks, "open_K15a": open_a, "open_K15b": open_b},
               open(os.path.join(VERIF, ".build/C15/exits.json"), "w"))
     print("c15_exits: %d exit sites, repaired=%s, stop_fenced=%s, spawn_locked=%s" % (len(rows), repaired, stop_fenced, spawn_locked))
     return 0
